@@ -12,7 +12,7 @@ CONSTANTS B = 4
   TU_FROM_START = TRUE
   NOTDEF_OWN = TRUE
   Mode = "map"
-  SpaceNames = {"s1", "s2", "mix"}
+  SpaceNames = {"s1", "s2", "mix0"}
   FamNames = {"cid", "tu1", "tuEdge", "tuMix", "tuPrefix"}
   ChainSpaces = {"s1"}
   MaxTop <- TopQuick
